@@ -55,6 +55,8 @@ type act struct {
 	rangeN  int
 	ranges  map[ssa.Value]*rangeInfo
 	deadEnd bool
+	hintAnchors map[ssa.Instruction][]*AssertHint
+	hintPoint   ssa.Instruction
 }
 
 type rangeInfo struct {
